@@ -28,6 +28,16 @@ CHECKS = {
             "Every RLIMIT_NOFILE value 4..40 is injected before 6 pipeline shapes; random command sequences are run with a quiescent snapshot of the shell's table after every command and a descriptor report from every child.",
             "trusts /proc/<pid>/fd and the helpers' fcntl scan; programs that never reach main are not observed in quick",
             "DESIGN.md 3 C08"),
+    "C01": ("exploration",
+            "runtime monitoring: observer program logs the argv/descriptors/parent it was started with; follower observer after | ; && ||; decoy files and sentinel HOME; failing lines are shrunk to one argument and a minimal text before classification",
+            "Every argument text of length <=2 (quick) / <=3 (thorough) over the 30-symbol alphabet in each of the three quoting styles and in only/first/middle/last/last-before-operator position is executed by the real binary; longer mixed lines sampled.",
+            "trusts the helper's argv record; ESC style = backslash before every non-alphanumeric ASCII character",
+            "DESIGN.md 3 C01"),
+    "C10": ("exploration",
+            "runtime monitoring: observer argv compared with a single-pass reference substitution; non-termination decided by the step-budget hook (bounded rewrite steps) backed by a /proc spin diagnosis",
+            "Random words of adjacent references under adversarial value environments (self/mutual reference, $-text, braces, regex-special) in three quoting forms, values exported or assigned.",
+            "names matched greedily as [A-Za-z0-9_]+; unquoted words compared modulo blank runs",
+            "DESIGN.md 3 C10"),
 }
 
 NOT_YET = "check not built yet (work in progress); runtime monitoring is applicable and planned, see DESIGN.md section 3"
